@@ -22,11 +22,23 @@ def hash_prelude(u):
     u.text(txt, 'prelude/hash_spec.rs')
 
 
+def hash_prelude_specs_only(u):
+    """hash_spec.rs without the ExPathBuf declaration (already made by vfs.rs in the filesystem units)."""
+    import os
+    import kv
+    txt = open(os.path.join(kv.VERIF, 'contracts', 'prelude', 'hash_spec.rs')).read()
+    txt = txt[:txt.index('#[verifier::external_type_specification]')]
+    for k, v in constants().items():
+        txt = txt.replace('@%s@' % k, '0x%x' % v)
+    u.text(txt, 'prelude/hash_spec.rs')
+
+
 def weave_hash(u, props=('C12',)):
     props = list(props)
     u.text('pub mod multiplicative_hash {\nuse super::*;\n')
     st = u.item('src/multiplicative_hash.rs', ['struct MultiplicativeHash'])
     st.drop_attrs()
+    st.replace('pub ( crate ) struct', 'pub struct', 'T9-visibility')
     u.dropped.append('multiplicative_hash.rs: #[derive(Clone, Copy, Debug, PartialEq, Eq, Hash)] on MultiplicativeHash')
 
     red = u.under_contract(u.item('src/multiplicative_hash.rs', ['fn reduce']), props)
